@@ -158,6 +158,12 @@ def run(ctx):
                           "growth of `%s` is bounded on all %d paths: %s" % (fld, len(vs), ", ".join(kinds)),
                           "`%s.%s(..)` in %s can grow the structure with the stream: %s" % (fld, e.get("name"), m.name, bad[0][0][1] if bad else ""))
     ctx.floor("R11-growth-census", n_growth, 5, "growth sites on container fields")
+    # CMSHeap: `paired with a removal` bounds the heap only if the removal hits the entry it is meant to replace:
+    # that is C10's paired-update rule (same key, counter stepped by exactly one, re-keyed n-1 -> n)
+    ha = ctx.anchor("topk::cmsheap::CMSHeap::add")
+    if ha is not None:
+        from .C10 import heap_pairing_rules
+        heap_pairing_rules(ctx, ha)
 
 
 def classify_growth(ctx, adt, m, fld, e, i, evs, facts, cf):
